@@ -2,6 +2,7 @@
 """seed_recheck.py <name>...: re-run all claimed checks against stored seeded changes (applied to /repo, reverted straight afterwards)."""
 import json, os, subprocess, sys, time
 VERIF = '/verif'
+REPO = os.environ.get('VERIF_REPO', '/repo')   # a scratch checkout when several rechecks run side by side
 
 def sh(cmd, cwd=None):
     p = subprocess.run(cmd, shell=True, cwd=cwd, capture_output=True, text=True)
@@ -10,7 +11,7 @@ def sh(cmd, cwd=None):
 names = sys.argv[1:] or sorted(os.listdir(f'{VERIF}/seeded'))
 for name in names:
     d = f'{VERIF}/seeded/{name}'
-    rc, out = sh(f'git -C /repo apply {d}/patch.diff')
+    rc, out = sh(f'git -C {REPO} apply {d}/patch.diff')
     if rc:
         print(name, 'patch does not apply:', out[:200]); continue
     checks = {}
@@ -31,7 +32,7 @@ for name in names:
                     except Exception:
                         pass
     finally:
-        sh('git -C /repo checkout -- .')
+        sh(f'git -C {REPO} checkout -- .')
     meta = json.load(open(f'{d}/meta.json'))
     meta['checks_against_it'] = checks
     meta['caught_by'] = [p for p, c in checks.items() if c['exit'] == 1]
@@ -43,4 +44,5 @@ for name in names:
             if l.startswith('VIOLATION'): print('   ', p, l[:200])
 # evidence files written while a change was applied are not evidence about the tree: restore the committed ones
 import subprocess as _sp
-_sp.run(['git', '-C', '/verif', 'checkout', '--', 'evidence'])
+if 'VERIF_EVID' not in os.environ:
+    _sp.run(['git', '-C', '/verif', 'checkout', '--', 'evidence'])
